@@ -16,7 +16,7 @@ from props import c14_util as cu
 
 PROP = "C14"
 LEVEL = "proof"
-GEN_UNITS = ["GenUtils", "GenUtils2"]     # C14_gram_dense_code / C14_gram_tucker_code are stated over the generated gather_wrap_dims
+GEN_UNITS = ["GenUtils", "GenUtils2"]     # gather_wrap_dims (C14_gram_dense_code / _tucker_code), tt_sub2ind / tt_ind2sub (C14_gram_sparse_code)
 SHARD = 8
 COQ_TARGETS = ["Props/C14.vo", "Model/C14Check.vo", "Model/Harness.vo"]
 THEOREM_FILES = ["Props/C14.v"]
@@ -31,14 +31,17 @@ RULE = ("integer tensors (Tucker-structured low rank with integer core/factors, 
         "orthonormal, or repeated = not orthogonal; generic directions normalised on the 2^-30 grid); sequences of nvecs calls over all modes "
         "on ONE object with another operation between the calls (normalize / normalize(weight_factor=k|'all') / normalize(sort) / arrange / "
         "fixsigns / redistribute / full / norm / innerprod / ttv / to_tenmat / collapse), sparse sequences checked at the Gram matrix; "
+        "inside every exact sparse / sparse-core run the output of sptensor.spmatrix() (stored order) resp. of core.ttm(V) is recorded and "
+        "compared with the code-path models; "
         "agreement across representations only where the eigen-gap at r is > 1e-3 relative; non-trivial = mode size >= 2; "
         "distinct = distinct (op,args)")
 CORRESPONDENCE_ONLY = ["scipy.sparse products (COO x COO in sptensor.nvecs, COO x ndarray in the sparse-core branch of ttensor.nvecs) compute the matrix "
                        "product of the arrays the COO matrices denote: library oracle; C14_coo_product proves that the coordinate-level model "
                        "is that matrix product, the recorded solver input is compared with the model on every sample",
-                       "sptensor.nvecs' re-keying reshape(...).squeeze().spmatrix() and the multi-mode sptensor.ttm chain producing H in the "
-                       "sparse-core branch (C14_gram_tucker_sparse_core holds for every well-formed H with the right denotation; the "
-                       "single-mode product is C02_ttm_sparse): recorded solver input = model = gram_spec on samples",
+                       "the single-mode kernel of sptensor.ttm used as the first step of the chain H = core.ttm(V) is C02's coordinate-level "
+                       "model impl_ttm_sp (theorem C02_ttm_sparse; tied to the code by C02's correspondence and here by the recorded H of "
+                       "every exact sparse-core sample); the sptensor constructor calls inside reshape/squeeze are taken to keep the rows "
+                       "as given (recorded spmatrix() output = model tnt on every exact sparse sample)",
                        "eigen solvers eigh/eigsh/eig/eigs: certificate-checked oracles"]
 ASSUMPTIONS = ["floats converted exactly (solver input/output) or on the 2^-40 grid (returned vectors) to rationals; recorded solver input of "
                "scaled data divided exactly by 4^exponent in the harness",
@@ -48,7 +51,14 @@ ASSUMPTIONS = ["floats converted exactly (solver input/output) or on the 2^-40 g
 EXPLANATION = ("C14_gram_dense / _sparse / _kruskal / _tucker: the Gram matrix the code forms equals gram_spec of the denotation (any ring, "
                "shape, mode); C14_gram_dense_code / C14_gram_tucker_code / C14_gram_tucker_sparse_core: the same matrices built from the "
                "GENERATED gather_wrap_dims + C01's to_tenmat / to_sptenmat(+constructor) / double + tensor.ttm transliterations; "
-               "C14_coo_product: the COO product model is the matrix product of the denotations; all executable code models are evaluated "
+               "C14_coo_product: the COO product model is the matrix product of the denotations; C14_sparse_rekey_bridge / "
+               "C14_gram_sparse_code(_spec): sptensor.nvecs' reshape (over the GENERATED tt_sub2ind / tt_ind2sub) / squeeze / spmatrix / transpose "
+               "yields exactly the triples of C14_gram_sparse, so the code path's product is gram_sp_impl = the matrix product of the denoted "
+               "arrays = gram_spec; C14_sparse_singleton_refused: the same path refuses singleton modes (finding C14-F2); "
+               "C14_sparse_ttm_chain / C14_gram_tucker_sparse_core_code(_spec): H = core.ttm(V) as the code computes it (sparse first step, "
+               "tensor.ttm afterwards) is dense and holds core x_m V_m, so the sparse-core theorem needs no hypothesis about H; the COO matrix "
+               "spmatrix() returns inside sptensor.nvecs and the tensor core.ttm(V) returns inside ttensor.nvecs are RECORDED and compared "
+               "with these models; all executable code models are evaluated "
                "on every exact sampled input against the recorded solver input; op seq calls nvecs for every mode on ONE object (other "
                "operations between the calls) and checks each result against the original denotation; C14_postprocess / C14_sign_rule: "
                "argsort(-|w|) selection and sign rule for any solver output; correspondence: recorded solver input/output tie the model "
@@ -267,10 +277,35 @@ AGREE_REPRS = ("dense", "ktensor", "ttensor", "ttensor_sp")
 
 # ---------------------------------------------------------------- running pyttb with the solvers recorded
 @contextlib.contextmanager
-def _recorded(np, log):
+def _recorded(np, log, aux=None):
+    """scipy's eigen solvers wrapped (record input and output); with aux: also the COO matrix sptensor.spmatrix() returns inside
+    sptensor.nvecs and the result of the outermost sptensor.ttm call inside ttensor.nvecs (record only, pyttb untouched)"""
     import scipy.linalg
     import scipy.sparse
     import scipy.sparse.linalg
+    import pyttb as ttb
+    o_spm, o_ttm = ttb.sptensor.spmatrix, ttb.sptensor.ttm
+    depth = [0]
+
+    def spm(self):
+        out = o_spm(self)
+        if aux is not None and "tnt" not in aux:
+            c = out.tocoo(False) if not isinstance(out, scipy.sparse.coo_matrix) else out
+            aux["tnt"] = {"shape": [int(x) for x in c.shape], "rows": [int(x) for x in c.row], "cols": [int(x) for x in c.col],
+                          "data": [tgen.exact(x) for x in c.data]}
+        return out
+
+    def ttm(self, *a, **k):
+        depth[0] += 1
+        try:
+            out = o_ttm(self, *a, **k)
+        finally:
+            depth[0] -= 1
+        if aux is not None and depth[0] == 0 and "H" not in aux:
+            aux["H"] = ({"kind": "tensor", **tgen.obs_dense(np, out)} if isinstance(out, ttb.tensor)
+                        else {"kind": "sptensor", **tgen.obs_sparse(np, out)} if isinstance(out, ttb.sptensor)
+                        else {"kind": type(out).__name__})
+        return out
     saved = [(scipy.linalg, "eigh"), (scipy.linalg, "eig"), (scipy.sparse.linalg, "eigsh"), (scipy.sparse.linalg, "eigs")]
     orig = [(m, nm, getattr(m, nm)) for m, nm in saved]
 
@@ -284,10 +319,13 @@ def _recorded(np, log):
     try:
         for m, nm, f in orig:
             setattr(m, nm, wrap(nm, f))
+        if aux is not None:
+            ttb.sptensor.spmatrix, ttb.sptensor.ttm = spm, ttm
         yield
     finally:
         for m, nm, f in orig:
             setattr(m, nm, f)
+        ttb.sptensor.spmatrix, ttb.sptensor.ttm = o_spm, o_ttm
 
 
 _mk = cu.mk
@@ -296,8 +334,8 @@ _mk = cu.mk
 def _run_one(ttb, np, a, rp, X=None):
     if X is None:
         X = _mk(ttb, np, a, rp)
-    log = []
-    with _recorded(np, log):
+    log, aux = [], {}
+    with _recorded(np, log, aux):
         v = X.nvecs(a["n"], a["r"], flipsign=a["flip"])
     v = np.asarray(v)
     o = {"is_real": not np.iscomplexobj(v), "vshape": [int(x) for x in v.shape],
@@ -310,6 +348,7 @@ def _run_one(ttb, np, a, rp, X=None):
         o["Y"] = [[tgen.exact(x) for x in row] for row in y]
         o["w"] = [tgen.exact(x) for x in np.real(w)]
         o["cols"] = [[tgen.exact(x) for x in np.real(vv)[:, j]] for j in range(vv.shape[1])]
+    o.update(aux)          # "tnt": spmatrix() inside sptensor.nvecs;  "H": core.ttm(V) inside ttensor.nvecs (sparse core)
     return o
 
 
@@ -395,7 +434,14 @@ def _e_gram(a, o, rp, inexact=False):
     if rp == "sparse":          # the COO-product model of C14_gram_sparse on the stored subscripts/values as given
         import random
         subs, vals = tgen.dense_to_sparse(a["shape"], a["data"], random.Random(a["sseed"]), a["order"])
-        e += f" && mat_eqb (gram_sp_code {tgen.gsparse(a['shape'], subs, vals)} {a['n']}) {gzmat(o['Y'])}"
+        gs = tgen.gsparse(a['shape'], subs, vals)
+        e += f" && mat_eqb (gram_sp_code {gs} {a['n']}) {gzmat(o['Y'])}"
+        # the code path itself (C14_gram_sparse_code): reshape over the generated tt_sub2ind/tt_ind2sub, squeeze, spmatrix, transpose —
+        # on the domain where that path accepts the request (mode n and the product of the other modes > 1; elsewhere the path
+        # refuses, C14_sparse_singleton_refused / finding C14-F2, and only the representation-independent checks above apply)
+        if a["shape"][a["n"]] > 1 and math.prod(d for k, d in enumerate(a["shape"]) if k != a["n"]) > 1:
+            e += f" && omat_eqb (gram_sp_path_code {gs} {a['n']}) {gzmat(o['Y'])}"
+            e += " && " + _e_tnt(a, o, gs)
     if rp in ("ttensor", "ttensor_sp"):      # the through-the-core model of C14_gram_tucker
         e += f" && mat_eqb (gram_t_code {tgen.gttensor(a['tcs'], a['tcore'], a['tf'])} {a['n']}) {gzmat(o['Y'])}"
         if rp == "ttensor":
@@ -403,8 +449,41 @@ def _e_gram(a, o, rp, inexact=False):
         else:                   # sparse core as stored
             import random
             subs, vals = tgen.dense_to_sparse(a["tcs"], a["tcore"], random.Random(a["sseed"]), a["order"])
-            e += f" && gram_tsp_code {tgen.gsparse(a['tcs'], subs, vals)} {_gmats(a['tf'])} {a['n']} {gzmat(o['Y'])}"
+            gs = tgen.gsparse(a['tcs'], subs, vals)
+            e += f" && gram_tsp_code {gs} {_gmats(a['tf'])} {a['n']} {gzmat(o['Y'])}"
+            # with the H the code computes (C14_gram_tucker_sparse_core_code): the sptensor.ttm chain, and H as recorded
+            e += f" && gram_tsp_chain_code {gs} {_gmats(a['tf'])} {a['n']} {gzmat(o['Y'])}"
+            e += " && " + _e_chain(a, o, gs)
     return e
+
+
+def _e_tnt(a, o, gs):
+    """the COO matrix spmatrix() returned inside sptensor.nvecs (stored order, values divided exactly by 2^exp) = the model's tnt^T"""
+    t = o.get("tnt")
+    if not t or any(isinstance(x, str) for x in t["data"]):
+        return "false"
+    data = cu.unscale_exact([t["data"]], cu.total_exp(a))[0]
+    if not all(isinstance(x, int) for x in data):
+        return "false"
+    return f"sp_tnt_recorded_ok {gs} {a['n']} {gnlist(t['shape'])} {gnlist(t['rows'])} {gnlist(t['cols'])} {gzlist(data)}"
+
+
+def _e_chain(a, o, gs):
+    """H = core.ttm(V) recorded inside ttensor.nvecs (sparse core) against the chain model (values divided exactly by 2^exp: the
+    factors are unscaled on this path).  The current code returns a dense tensor (compared entry by entry); a well-formed sptensor with
+    the same denotation is the other container C14_gram_tucker_sparse_core admits."""
+    h = o.get("H")
+    if not h or h.get("kind") not in ("tensor", "sptensor"):
+        return "false"
+    raw = h["data"] if h["kind"] == "tensor" else h["vals"]
+    if any(isinstance(x, str) for x in raw):
+        return "false"
+    data = cu.unscale_exact([raw], a.get("exp", 0))[0]
+    if not all(isinstance(x, int) for x in data):
+        return "false"
+    if h["kind"] == "sptensor":
+        return f"sp_denotes {tgen.gsparse(h['shape'], h['subs'], data)} (sp_chain_code {gs} {_gmats(a['tf'])} {a['n']})"
+    return f"sp_chain_recorded_ok {gs} {_gmats(a['tf'])} {a['n']} {tgen.gdense(h['shape'], data)}"
 
 
 def _e_eig(a, o, rp):
